@@ -6,11 +6,16 @@ import IcyVerif.Drv.Util
   saveh <case> <date>                 the same as `<length> <fnv>`
   load  <fmt> <hex>                   `Buffer::from_bytes`: `ok <bw> <bh> <lw> <lh> <rows> <ice> <fnv cells> <#pal> <fnv pal> <fonts>` / `rej`
   rt    <case> <date>                 `rep=<Representable> save=ok|err|panic load=ok|rej|- same=<picSame>`
-  resave <fmt> <opts> <date> <hex>    load -> save -> load: `rej` | `big` | `save-err` | `save-panic` | `rej2` | `<digest of 2nd load> same=<0|1>`
+  resave <fmt> <opts> <date> <hex>    load -> save -> load: `rej` | `big` | `save-err` | `save-panic` | `<len> <fnv of the re-saved file>` + (`rej2` | `<digest of 2nd load> same=<0|1>`)
 
-  <case> = `<fmt>:<ice>:<w>:<opts>:<palette>:<fonts>:<alphabet>:<symbols>`; palette = `d` | `p<rrggbb…>`; fonts = `-` |
-  `<slot>.d` | `<slot>.g<height>.<seed>` (comma separated, a later entry of a slot wins); alphabet = `ch.fg.bg.flags.page,…`;
-  symbols = one base-36 digit per cell, or `*`. -/
+  fontname <height> <hex>             `guess_font_name` of a font block, as SAUCE bytes (hex)
+  saucefont <hex name>                `BitFont::from_sauce_name`: `<height> <fnv data>` / `none`
+
+  <case> = `<fmt>:<ice>:<w>:<opts>:<palette>:<fonts>:<alphabet>:<symbols>[:<meta>]`; palette = `d` | `p<rrggbb…>`; fonts = `-` |
+  `<slot>.d` | `<slot>.g<height>.<seed>` | `<slot>.s<index into SAUCE_FONT_NAMES>` (comma separated, a later entry of a slot
+  wins); alphabet = `ch.fg.bg.flags.page,…`; symbols = one base-36 digit per cell, or `*`; meta = the buffer's SAUCE data
+  `<title>/<author>/<group>/<comment,comment,…>/<ar><ls>` (hex, `-` = empty).
+  The digest of a loaded buffer ends in the font names (`slot.height.fnv(data).fnv(name)`) and the SAUCE data it keeps. -/
 namespace IcyVerif.Drv.BinFormats
 open IcyVerif.XbCompress IcyVerif.BinFormats IcyVerif.Drv IcyVerif.Gen
 
@@ -53,9 +58,18 @@ def genFontData (h seed : Nat) : List Nat :=
 
 def asciiBytes (s : String) : List Nat := s.toList.map Char.toNat
 
+def sauceFontAt (i : Nat) : Option Font :=
+  (BinFonts.sauceFonts[i]?).map fun e => ⟨e.1, e.2.1, e.2.2⟩
+
 def parseFont (s : String) : Option (Nat × Font) :=
   match s.splitOn "." with
   | [slot, "d"] => slot.toNat?.map fun n => (n, defaultFont)
+  | [slot, g] =>
+    if g.startsWith "s" then
+      match slot.toNat?, (g.drop 1).toString.toNat? with
+      | some n, some i => (sauceFontAt i).map fun f => (n, f)
+      | _, _ => none
+    else none
   | [slot, g, seed] =>
     if g.startsWith "g" then
       match slot.toNat?, (g.drop 1).toString.toNat?, seed.toNat? with
@@ -74,9 +88,17 @@ def parsePal (s : String) : Option (List Rgb) :=
 /-- `Buffer::get_char` on the layer cell the harness set: an invisible cell of the opaque layer shows as the default cell -/
 def viewCell (c : Cell) : Cell := if isVisible c then c else Cell.dflt
 
-def parseCase (t : String) : Option (Fmt × Opts × Pic) :=
-  match t.splitOn ":" with
-  | [fmt, ice, w, opts, pal, fonts, alpha, syms] =>
+def parseMeta (s : String) : Option Sauce.Meta :=
+  match s.splitOn "/" with
+  | [t, a, g, c, f] =>
+    let cs : Option (List (List Nat)) := if c == "-" then some [] else (c.splitOn ",").mapM parseHex
+    match parseHex t, parseHex a, parseHex g, cs with
+    | some t, some a, some g, some cs =>
+      some { title := t, author := a, group := g, comments := cs, ar := f.toList.getD 0 '0' == '1', ls := f.toList.getD 1 '0' == '1' }
+    | _, _, _, _ => none
+  | _ => none
+
+def parseCase8 (fmt ice w opts pal fonts alpha syms : String) (m : Option Sauce.Meta) : Option (Fmt × Opts × Pic) :=
     match parseFmt fmt, ice.toNat?, w.toNat?, opts.toNat?, parsePal pal, (alpha.splitOn ",").mapM parseCell with
     | some fmt, some ice, some w, some opts, some pal, some alpha =>
       if w = 0 then none else
@@ -89,14 +111,24 @@ def parseCase (t : String) : Option (Fmt × Opts × Pic) :=
       | some fl, some cs =>
         let cs := cs.map viewCell
         some (fmt, ⟨opts % 2 == 1, (opts / 2) % 2 == 1⟩,
-          { w := w, h := cs.length / w, rows := chunk w cs.length cs, ice := iceOf ice, pal := pal, fonts := fl.reverse })
+          { w := w, h := cs.length / w, rows := chunk w cs.length cs, ice := iceOf ice, pal := pal, fonts := fl.reverse, sauce := m })
       | _, _ => none
     | _, _, _, _, _, _ => none
+
+def parseCase (t : String) : Option (Fmt × Opts × Pic) :=
+  match t.splitOn ":" with
+  | [fmt, ice, w, opts, pal, fonts, alpha, syms] => parseCase8 fmt ice w opts pal fonts alpha syms none
+  | [fmt, ice, w, opts, pal, fonts, alpha, syms, m] =>
+    match parseMeta m with
+    | some m => parseCase8 fmt ice w opts pal fonts alpha syms (some m)
+    | none => none
   | _ => none
 
 def maxArea : Nat := 60000
 
-def isBig (b : LBuf) : Bool := b.bh < 0 || b.bw * b.bh.toNat > maxArea
+def maxRows : Nat := 4000
+
+def isBig (b : LBuf) : Bool := b.bh < 0 || b.bw * b.bh.toNat > maxArea || b.bh.toNat > maxRows
 
 def insertSortedFonts (e : Nat × Font) : List (Nat × Font) → List (Nat × Font)
   | [] => [e]
@@ -113,8 +145,16 @@ def digest (b : LBuf) : String :=
   let pal := fnv (b.pal.flatMap fun c => [c.1, c.2.1, c.2.2])
   -- the font table is a map: first entry of a slot counts, printed by slot
   let fonts := b.fonts.foldl (fun acc e => insertSortedFonts e acc) []
-  let fs := fonts.map fun e => s!"{e.1}.{e.2.height}.{fnv e.2.data}"
-  s!"ok {b.bw} {b.bh} {b.lw} {b.lh} {b.lines.length} {iceNum b.ice} {cells} {b.pal.length} {pal} {if fs.isEmpty then "-" else ",".intercalate fs}"
+  let fs := fonts.map fun e => s!"{e.1}.{e.2.height}.{fnv e.2.data}.{fnv e.2.name}"
+  let sauce := match b.sauce with
+    | none => "-"
+    | some m =>
+      toString (fnv (Sauce.strAppend Gen.Sauce.titleLen Gen.Sauce.titlePad m.title [] ++
+        Sauce.strAppend Gen.Sauce.authorLen Gen.Sauce.authorPad m.author [] ++
+        Sauce.strAppend Gen.Sauce.groupLen Gen.Sauce.groupPad m.group [] ++ [m.comments.length] ++
+        m.comments.flatMap (fun c => Sauce.strAppend Gen.Sauce.commentLen Gen.Sauce.commentPad c []) ++
+        [if m.ar then 1 else 0, if m.ls then 1 else 0]))
+  s!"ok {b.bw} {b.bh} {b.lw} {b.lh} {b.lines.length} {iceNum b.ice} {cells} {b.pal.length} {pal} {if fs.isEmpty then "-" else ",".intercalate fs} {sauce}"
 
 def bit (b : Bool) : String := if b then "1" else "0"
 
@@ -166,12 +206,22 @@ def handle : List String → String
          (match save f (optsOf o) (asciiBytes date) p1 with
           | .ok b2 =>
             (match fromBytes f b2 with
-             | .ok g2 => s!"{digest g2} same={bit (picSame false f p1 g2)}"
-             | _ => "rej2")
+             | .ok g2 => s!"{b2.length} {fnv b2} {digest g2} same={bit (picSame false f p1 g2)}"
+             | _ => s!"{b2.length} {fnv b2} rej2")
           | .err => "save-err"
           | .panic => "save-panic")
        | _ => "rej")
     | _, _, _ => "bad-op"
+  | ["fontname", h, hx] =>
+    match h.toNat?, parseHex hx with
+    | some h, some d => toHex (guessedName h d)
+    | _, _ => "bad-op"
+  | ["saucefont", hx] =>
+    match parseHex hx with
+    | some n => (match sauceFontByName n with
+      | some f => s!"{f.height} {fnv f.data}"
+      | none => "none")
+    | none => "bad-op"
   | _ => "bad-op"
 
 end IcyVerif.Drv.BinFormats
